@@ -1,11 +1,208 @@
 import Driver.Util
-/- line-protocol commands of the OrderObj family (stub: filled in by the family's build) -/
+import AsyncFix.Model.OrderLink
+/-!
+line-protocol commands of the OrderObj family (C17)
+
+tokens: text (lists of code points) `u65.66` (`u` = empty, `-` = None); Lean strings (status,
+ExecType, MsgType values) `x<hex of UTF-8>`; grid integers decimal; optional number `-`;
+prices / quantities of built requests are printed as the text `str(float)` gives (`renderGrid`);
+numeric report tags `-` (missing) | `bad` | `n<int>`.
+
+  oo.init <root> <price> <qty> <ticker> <side> <ordtype> <account>
+  oo.act  cNew | cCancel | cReplace <p|-> <q|-> | cRecv | xRecv <d> | xDecide <d> | xAck | xRejNew
+          | xFill <q> <px> | xExpire | xSuspend | xResume          (d = accept | reject | pend)
+  oo.feed <msgtype> <11> <41> <37> <150> <39> <14> <151> <6> <44> <38>   (report straight into the order)
+  oo.push            remember the current link, reply its index
+  oo.load <i>
+  oo.root <text>     clord_root
+  oo.render <int>    str(n/8)
+
+reply of init/act/feed/load:  <outcome> | <order> | <#c2e> <#e2c> | <exchange>
+-/
 namespace Driver.OrderObj
+open AsyncFix.Model.OrderObj AsyncFix.Model.Exchange AsyncFix.Model.OrderLink
 
 structure St where
-  unit : Unit := ()
+  cur : Option Link := none
+  saved : Array Link := #[]
+
+def strT (s : Str) : String := "u" ++ ".".intercalate (s.map toString)
+def optStrT : Option Str → String
+  | none => "-"
+  | some s => strT s
+
+def tokText (t : String) : Option Str :=
+  match t.toList with
+  | ['u'] => some []
+  | 'u' :: rest => ((String.ofList rest).splitOn ".").mapM (·.toNat?)
+  | _ => none
+
+def tokOptText (t : String) : Option (Option Str) :=
+  if t == "-" then some none else (tokText t).map some
+
+def tokOptInt (t : String) : Option (Option Int) :=
+  if t == "-" then some none else t.toInt?.map some
+
+def tokOptString (t : String) : Option (Option String) :=
+  if t == "-" then some none else (Driver.tokStr t).map some
+
+def tokNum (t : String) : Option Num :=
+  if t == "-" then some .missing
+  else if t == "bad" then some .bad
+  else match t.toList with
+    | 'n' :: rest => (String.ofList rest).toInt?.map .val
+    | _ => none
+
+def numT : Num → String
+  | .missing => "-"
+  | .bad => "bad"
+  | .val n => "n" ++ toString n
+
+def optStringT : Option String → String
+  | none => "-"
+  | some s => Driver.strTok s
+
+def excT : Exc → String
+  | .fixError => "FIXError"
+  | .assertion => "Assertion"
+  | .value => "Value"
+  | .tagNotFound => "TagNotFound"
+
+def resBoolT : Res Bool → String
+  | .ok true => "1"
+  | .ok false => "0"
+  | .raised e => "raise:" ++ excT e
+
+def orderT (o : Order) : String :=
+  " ".intercalate [
+    "st=" ++ Driver.strTok o.status, "cl=" ++ strT o.clordId, "or=" ++ optStrT o.origClordId,
+    "oid=" ++ optStrT o.orderId, "px=" ++ toString o.price, "qty=" ++ toString o.qty,
+    "lv=" ++ toString o.leavesQty, "cum=" ++ toString o.cumQty,
+    "avg=" ++ (match o.avgPx with | none => "nan" | some a => toString a),
+    "cnt=" ++ toString o.clordCnt,
+    "cc=" ++ resBoolT (canCancel o), "cr=" ++ resBoolT (canReplace o),
+    "fin=" ++ (if isFinished o then "1" else "0")]
+
+def valT : Val → String
+  | .text s => strT s
+  | .num n => strT (renderGrid n)
+
+def msgT (m : Msg) : String :=
+  Driver.strTok m.msgType ++ " " ++ ",".intercalate (m.tags.map fun (t, v) => toString t ++ "=" ++ valT v)
+
+def reportT (r : Report) : String :=
+  ":".intercalate [Driver.strTok r.msgType, optStrT r.clOrdId, optStrT r.origClOrdId, optStrT r.orderId,
+    optStringT r.execType, optStringT r.ordStatus, numT r.cumQty, numT r.leavesQty, numT r.avgPx,
+    numT r.price, numT r.orderQty]
+
+def outT : StepOut → String
+  | .built m => "built " ++ msgT m
+  | .raised e => "raise " ++ excT e
+  | .ret b => "ret " ++ (if b then "1" else "0")
+  | .empty => "empty"
+  | .emit rs => "emit " ++ ";".intercalate (rs.map reportT)
+
+def exchT (e : Exch) : String :=
+  " ".intercalate [
+    if e.known then "known" else "unknown", Driver.strTok e.base, strT e.liveId,
+    toString e.price, toString e.qty, toString e.cum, toString e.leaves, toString e.avgPx,
+    Driver.strTok e.reported,
+    match e.pending with
+    | none => "-"
+    | some p => Driver.strTok p.kind ++ "/" ++ strT p.clOrdId ++ "/" ++ toString p.price ++ "/" ++ toString p.qty]
+
+def linkT (out : String) (l : Link) : String :=
+  out ++ " | " ++ orderT l.order ++ " | " ++ toString l.c2e.length ++ " " ++ toString l.e2c.length ++
+    " | " ++ exchT l.ex
+
+def tokDecision : String → Option Decision
+  | "accept" => some .accept
+  | "reject" => some .reject
+  | "pend" => some .pend
+  | _ => none
+
+def tokAction : List String → Option Action
+  | ["cNew"] => some .cNew
+  | ["cCancel"] => some .cCancel
+  | ["cReplace", p, q] => do
+      let p ← tokOptInt p
+      let q ← tokOptInt q
+      pure (.cReplace p q)
+  | ["cRecv"] => some .cRecv
+  | ["xRecv", d] => (tokDecision d).map .xRecv
+  | ["xDecide", d] => (tokDecision d).map .xDecide
+  | ["xAck"] => some .xAck
+  | ["xRejNew"] => some .xRejNew
+  | ["xFill", q, px] => do
+      let q ← q.toInt?
+      let px ← px.toInt?
+      pure (.xFill q px)
+  | ["xExpire"] => some .xExpire
+  | ["xSuspend"] => some .xSuspend
+  | ["xResume"] => some .xResume
+  | _ => none
+
+def tokReport : List String → Option Report
+  | [mt, cl, orig, oid, ex, st, cum, lv, avg, px, qty] => do
+      let mt ← Driver.tokStr mt
+      let cl ← tokOptText cl
+      let orig ← tokOptText orig
+      let oid ← tokOptText oid
+      let ex ← tokOptString ex
+      let st ← tokOptString st
+      let cum ← tokNum cum
+      let lv ← tokNum lv
+      let avg ← tokNum avg
+      let px ← tokNum px
+      let qty ← tokNum qty
+      pure { msgType := mt, clOrdId := cl, origClOrdId := orig, orderId := oid, execType := ex,
+             ordStatus := st, cumQty := cum, leavesQty := lv, avgPx := avg, price := px, orderQty := qty }
+  | _ => none
 
 def handle (st : St) (cmd : String) (args : List String) : St × String :=
-  (st, "bad-op")
+  match cmd, args with
+  | "init", [root, price, qty, ticker, side, ordType, account] =>
+    match tokText root, price.toInt?, qty.toInt?, tokText ticker, tokText side, tokText ordType, tokText account with
+    | some root, some price, some qty, some ticker, some side, some ordType, some account =>
+      match Order.init root price qty ticker side ordType account with
+      | .ok o => let l : Link := { order := o }; ({ st with cur := some l }, linkT "ok" l)
+      | .raised e => ({ st with cur := none }, "raise " ++ excT e)
+    | _, _, _, _, _, _, _ => (st, "bad-op")
+  | "act", toks =>
+    match st.cur, tokAction toks with
+    | some l, some a =>
+      let (l', out) := stepFull l a
+      ({ st with cur := some l' }, linkT (outT out) l')
+    | _, _ => (st, "bad-op")
+  | "feed", toks =>
+    match st.cur, tokReport toks with
+    | some l, some r =>
+      let (o, res) := feed l.order r
+      let l' := { l with order := o }
+      let out := match res with
+        | .ok b => StepOut.ret b
+        | .raised e => StepOut.raised e
+      ({ st with cur := some l' }, linkT (outT out) l')
+    | _, _ => (st, "bad-op")
+  | "push", [] =>
+    match st.cur with
+    | some l => ({ st with saved := st.saved.push l }, toString st.saved.size)
+    | none => (st, "bad-op")
+  | "load", [i] =>
+    match i.toNat? with
+    | some i =>
+      match st.saved[i]? with
+      | some l => ({ st with cur := some l }, linkT "ok" l)
+      | none => (st, "bad-op")
+    | none => (st, "bad-op")
+  | "root", [s] =>
+    match tokText s with
+    | some s => (st, strT (clordRoot s))
+    | none => (st, "bad-op")
+  | "render", [n] =>
+    match n.toInt? with
+    | some n => (st, strT (renderGrid n))
+    | none => (st, "bad-op")
+  | _, _ => (st, "bad-op")
 
 end Driver.OrderObj
